@@ -11,6 +11,9 @@ def canon_value(v):
         return "s:" + enc(v)
     if v is None:
         return "t:-"
+    if isinstance(v, bool) or (type(v) is int and v in (0, 1)):
+        # stage 4: guidislink (a bool; `0` when no start handler ran -- equal to False for every Python comparison)
+        return "b:%d" % int(v)
     if hasattr(v, "tm_year"):
         return "t:" + ",".join(str(x) for x in tuple(v))
     if isinstance(v, list) and all(isinstance(x, dict) and all(isinstance(y, str) or y is None for y in dict.values(x)) for x in v):
@@ -76,6 +79,15 @@ def lines_for(log, loose, result):
                 s1 = U.make_safe_absolute_uri(U._urljoin(cur, bb))
             except Exception:
                 break
+            # stage 4: what resolve_uri answered inside this start handler (`_start_link`): an oracle line before the start line
+            sj, j = [], i + 1
+            while j < len(run) and (run[j]["k"] == "join" or (run[j]["k"] == "ns" and run[j].get("in_start"))):
+                if run[j]["k"] == "join":
+                    sj.append("J:%s|%s" % (enc(run[j]["uri"]), enc(run[j]["result"])))
+                j += 1
+            if sj:
+                lines.append("mix oracle " + " ".join(sj))
+                exp.append(None)
             lines.append("mix start %s %s %s %s" % (enc(rec["tag"]), enc(s2), enc(s1), " ".join("%s|%s" % (enc(a), enc(b_)) for a, b_ in rec["attrs"])))
             exp.append(state_str(rec["post"]))
         elif k == "end":
@@ -136,7 +148,32 @@ def content_doc(rng):
     source (subtitle, tagline, rights, copyright, info, dc:rights, itunes:subtitle, dc:title, feedburner:browserFriendly), in feed and
     entry context, with and without a type / mode attribute, with text that does or does not look like HTML.  Returns (bytes, parse kwargs)."""
     esc = lambda t: t.replace("&", "&amp;").replace("<", "&lt;").replace(">", "&gt;")
+    def lg(atom):
+        """stage 4: a link (with href / url / uri, rel, type; or with text) or a guid / id (with and without isPermaLink)"""
+        r = rng.random()
+        ref = rng.choice(["http://example.org/a", "rel/b?x=1&amp;y=2", "../c", "", "mailto:x@y.example", "d e", "?q=&amp;amp;z", "f&amp;copy;g"])
+        if r < 0.45:
+            attrs = ""
+            for an in rng.sample(["href", "url", "uri"], rng.choice([1, 1, 1, 2, 0])):
+                attrs += ' %s="%s"' % (an, ref if an == "href" else rng.choice([ref, "other/u"]))
+            if rng.random() < 0.5:
+                attrs += ' rel="%s"' % rng.choice(["alternate", "self", "enclosure", "ALTERNATE", "via", ""])
+            if rng.random() < 0.5:
+                attrs += ' type="%s"' % rng.choice(["text/html", "application/atom+xml", "html", "TEXT/HTML", "image/png", "application/xhtml+xml", ""])
+            if rng.random() < 0.15:
+                attrs += ' xml:base="http://other.example/sub/"'
+            if rng.random() < 0.15:
+                attrs += ' title="t" hreflang="en" length="12"'
+            return "<link%s/>" % attrs if rng.random() < 0.8 else "<link%s>%s</link>" % (attrs, rng.choice(["", "text", ref]))
+        if r < 0.7:
+            return "<link%s>%s</link>" % (rng.choice(["", "", ' rel="self"', ' type="text/plain"']), rng.choice([ref, " " + ref + " ", "http://example.org/?a=1&amp;amp;b=2&amp;c;=3", "x&amp;copy;y", ""]))
+        name = "id" if atom else rng.choice(["guid", "guid", "id"])
+        pl = rng.choice(["", "", ' isPermaLink="true"', ' isPermaLink="false"', ' isPermaLink="TRUE"', ' ispermalink="false"'])
+        return "<%s%s>%s</%s>" % (name, pl, rng.choice([ref, " urn:uuid:1234 ", "tag:example.org,2004:1", ""]), name)
+
     def el(name, atom):
+        if name == "@lg":
+            return lg(atom)
         t = rng.choice(TEXTS2)
         attrs = ""
         r = rng.random()
@@ -160,6 +197,8 @@ def content_doc(rng):
     # stage 3: summary / description / content in every order (a second description becomes content; content before description; content:encoded)
     entry_names = (["title", "rights", "dc:rights", "dc:title", "itunes:subtitle", "x:other", "summary", "content", "summary", "itunes:summary", "content", "media:description", "abstract"] if atom else
                    ["title", "dc:rights", "dc:title", "itunes:subtitle", "copyright", "x:other", "description", "cenc:encoded", "description", "itunes:summary", "fullitem", "dc:description", "content", "abstract"])
+    feed_names = feed_names + ["@lg", "@lg"]
+    entry_names = entry_names + ["@lg", "@lg", "@lg", "@lg"]
     fmeta = "".join(el(n, atom) for n in rng.sample(feed_names, rng.randint(1, 4)))
     entries = ""
     for i in range(rng.randint(0, 3)):
